@@ -3,6 +3,7 @@
 package main
 
 import (
+	"encoding/json"
 	"flag"
 	"fmt"
 	"os"
@@ -22,6 +23,7 @@ func main() {
 	verif := flag.String("verif", "", "verif directory (evidence/, known_findings.json); default: parent of the binary's directory")
 	list := flag.Bool("list", false, "list implemented properties")
 	nomut := flag.Bool("no-selftest", false, "thorough: skip the mutant self-test")
+	onlymut := flag.Bool("selftest-only", false, "only replay the stored mutants of the property and print the results")
 	flag.Parse()
 	if *list {
 		for _, id := range props.IDs() {
@@ -44,6 +46,12 @@ func main() {
 	if check == nil {
 		fmt.Fprintf(os.Stderr, "unknown property %q\n", *prop)
 		os.Exit(2)
+	}
+	if *onlymut {
+		res := runMutants(*prop, *repo, *verif, seed, an.NewR(nil, *prop))
+		b, _ := json.MarshalIndent(res, "", " ")
+		fmt.Println(string(b))
+		return
 	}
 	start := time.Now()
 	findings, err := an.LoadFindings(filepath.Join(*verif, "known_findings.json"))
